@@ -50,8 +50,59 @@ def case_strategy(draw):
             "field": draw(st.sampled_from(["B", "H", "B", "H", "J", "M"]))}
 
 
+@st.composite
+def classify_case(draw):
+    """inside / outside decision next to a surface: a magnet in identity pose, observers a tiny but representable distance
+    (1e-12 .. 1e-4 L) on either side of its surface, all lengths scaled by a power of two.  Every length then scales
+    exactly in binary, so whatever the library decides at scale 1 it must decide at scale s: J and M agree bit for bit."""
+    spec = draw(gen.source_spec(classes=gen.MAGNETS, max_path=1, L=1.0, with_pose=False))
+    body = geom.body_from_spec(spec)
+    obs = []
+    for _ in range(draw(st.integers(2, 6))):
+        u = draw(gen.uniforms(8))
+        S, n, _ = body.surface_point(u)
+        d = body.L * 10.0 ** (-12 + 8 * u[6]) * (1 if u[7] < 0.5 else -1)
+        obs.append({"region": "next_to_surface", "local": [float(x) for x in (np.asarray(S) + np.asarray(n) * d)], "offset": float(d)})
+    return {"kind": "classify", "source": spec, "observers": obs, "s": float(2.0 ** draw(st.integers(-30, 30))), "s_kind": "pow2", "e": 1.0,
+            "field": draw(st.sampled_from(["J", "M"]))}
+
+
 def strategy(tier):
-    return case_strategy()
+    return st.one_of(case_strategy(), case_strategy(), case_strategy(), classify_case())
+
+
+def _run_classify(case, ctx):
+    magpy = build.magpy
+    spec, s, field = case["source"], case["s"], case["field"]
+    cls = spec["cls"]
+    ctx.label(f"classify:{cls}")
+    ctx.label(f"decade:{int(np.floor(np.log10(s)))}")
+    P = np.array([o["local"] for o in case["observers"]], dtype=float)
+    fn = getattr(magpy, "get" + field)
+    r1 = build.call(fn, build.build_source(spec), P, squeeze=False)
+    rb = build.call(build.build_source, scale_spec(spec, s, 1.0))
+    if not r1.ok or not rb.ok:
+        bad = r1 if not r1.ok else rb
+        return [Violation({"sub": "call_raised", "cls": cls, "at": "classify", **exc_sig(bad.exc)}, repr(bad.exc)[:200])]
+    rs = build.call(fn, rb.value, P * s, squeeze=False)
+    if not rs.ok:
+        return [Violation({"sub": "call_raised", "cls": cls, "at": "classify_scaled", **exc_sig(rs.exc)}, repr(rs.exc)[:200])]
+    F1, Fs = np.asarray(r1.value).reshape(-1, 3), np.asarray(rs.value).reshape(-1, 3)
+    out = []
+    diff = np.any(F1 != Fs, axis=1) & ~(np.any(np.isnan(F1), axis=1) & np.any(np.isnan(Fs), axis=1))
+    if np.any(diff):
+        k = int(np.flatnonzero(diff)[0])
+        o = case["observers"][k]
+        out.append(Violation({"sub": "inside_decision_depends_on_unit", "cls": cls, "field": field, "decade": int(np.floor(np.log10(s))),
+                              "offset_decade": int(np.floor(np.log10(abs(o["offset"]) / geom.body_from_spec(spec).L))), "side": "out" if o["offset"] > 0 else "in"},
+                             f"{cls} get{field} at {o['local']} ({o['offset']:.3g} from the surface): {F1[k].tolist()} at scale 1, {Fs[k].tolist()} at scale {s:g} "
+                             f"(all lengths scaled exactly by a power of two)"))
+    if abs(np.log10(s)) >= 3:
+        ctx.mark_nontrivial(case)
+        ctx.sample(case, nontrivial=True)
+    else:
+        ctx.sample(case)
+    return out
 
 
 def scale_spec(spec, s, e):
@@ -77,6 +128,8 @@ def scale_spec(spec, s, e):
 
 
 def run_case(case, ctx):
+    if case.get("kind") == "classify":
+        return _run_classify(case, ctx)
     magpy = build.magpy
     spec = case["source"]
     cls = spec["cls"]
